@@ -39,3 +39,30 @@ Fixpoint ok_cues (authored observed : list (list str)) : bool :=
 
 (* a caption is in the domain of C03 when it shows at least one visible character *)
 Definition visible_lines (ls : list str) : bool := match norm_lines ls with [] => false | _ => true end.
+
+(* ---- C03: "up to leading/trailing white space per line" - trim only, the interior of a line is compared exactly;
+        lines that are empty after trimming (empty, blank, a lone no-break space) are dropped on both sides ---- *)
+Definition trim_lines (ls : list str) : list str := filter nonempty (map strip ls).
+Definition ok_lines_strict (authored observed : list str) : bool := strs_eqb (trim_lines authored) (trim_lines observed).
+Fixpoint ok_cues_strict (authored observed : list (list str)) : bool :=
+  match authored, observed with
+  | [], [] => true
+  | a :: at', o :: ot => ok_lines_strict a o && ok_cues_strict at' ot
+  | _, _ => false
+  end.
+
+(* ---- C04: "per line after trim + white-space-run collapse": the ends of a line are trimmed, runs of white space
+        INSIDE the line collapse to one blank.  White space = Python isspace EXCEPT U+00A0: a no-break space inside a line
+        is a character and must come back as itself (so must the decoding of &nbsp; / &#160;); U+2028, U+0085, FF ...
+        count as white space in the comparison (that they do not split the line is checked by the line structure) ---- *)
+Definition ascii_ws (c : Z) : bool := is_space c && negb (c =? 160).
+Fixpoint words_by_aux (f : Z -> bool) (s cur : str) : list str :=
+  match s with
+  | [] => match cur with [] => [] | _ => [rev cur] end
+  | c :: t =>
+      if f c then match cur with [] => words_by_aux f t [] | _ => rev cur :: words_by_aux f t [] end
+      else words_by_aux f t (c :: cur)
+  end.
+Definition norm_line_a (s : str) : str := join [32] (words_by_aux ascii_ws (strip s) []).
+Definition norm_lines_a (ls : list str) : list str := filter nonempty (map norm_line_a ls).
+Definition ok_lines_a (authored observed : list str) : bool := strs_eqb (norm_lines_a authored) (norm_lines_a observed).
